@@ -1,5 +1,6 @@
 import sys
 import os
+import threading
 
 from unittest.mock import patch
 
@@ -21,6 +22,30 @@ except Exception:
 _stdout = sys.stdout
 
 
+class _TraceSession:
+    """
+    The ``with`` block around one execution. Executions can nest (an instructor helper that
+    calls student code while student code is running); only the outermost one of a thread
+    starts and stops the tracer, so the tracer's saved state is not overwritten.
+    """
+    def __init__(self, tracer, filename, code):
+        self.tracer, self.filename, self.code = tracer, filename, code
+
+    def __enter__(self):
+        active = self.tracer._active
+        depth = getattr(active, 'depth', 0)
+        if depth == 0:
+            self.tracer._set_target(self.filename, self.code)
+            self.tracer.__enter__()
+        active.depth = depth + 1
+
+    def __exit__(self, exc_type, exc_val, traceback):
+        active = self.tracer._active
+        active.depth -= 1
+        if active.depth == 0:
+            return self.tracer.__exit__(exc_type, exc_val, traceback)
+
+
 class SandboxBasicTracer:
     """
 
@@ -29,14 +54,17 @@ class SandboxBasicTracer:
         super().__init__()
         self.filename = "student.py"
         self.code = None
+        self._active = threading.local()
 
-    def as_filename(self, filename, code):
+    def _set_target(self, filename, code):
         if os.path.isabs(filename):
             self.filename = filename
         else:
             self.filename = os.path.abspath(filename)
         self.code = code
-        return self
+
+    def as_filename(self, filename, code):
+        return _TraceSession(self, filename, code)
 
     def __enter__(self):
         pass
